@@ -88,7 +88,7 @@ PROPS = {
     },
     "C15": {
         "kani": ["ext_try_from_u8_exact:kani-complete"],
-        "units": ["codec", "ctors", "lemmas_codec", "prove"],
+        "units": ["codec", "serde", "ctors", "lemmas_codec", "prove"],
         "design_ref": "DESIGN.md section 7, C15",
         "technique": "contract-based deductive verification (Verus) of the real from_bytes / to_bytes (closures, chunks_exact, itertools tuples modelled by verified adapters); iff-acceptance for byte strings of every length",
         "claim": "from_bytes(b) is proved to return Ok exactly when b[0] is an extension degree d in 1..=6, the remainder is 5+d+2k 32-byte elements with k >= 1 and no trailing "
@@ -97,12 +97,13 @@ PROPS = {
                  "extension_degree_from_proof_bytes and ExtensionDegree::try_from(u8) are exact. Pure lemmas over these contracts: enc(p) has length 1 + 32*(5 + d + 2k); decoding then "
                  "re-encoding returns the identical bytes; the encoding of a well-formed proof is accepted and decodes to the same proof field by field; every proof the prover "
                  "outputs with bits*aggregation >= 2 is well-formed (shape postcondition of prove_with_rng). KNOWN FINDING: for bits*aggregation == 1 the prover outputs zero "
-                 "rounds and the decoder refuses its own encoding (obligation C15.roundtrip_zero_rounds, listed in known_findings.txt). The serde wrappers (two forwarding calls "
-                 "behind serde's generic machinery) are not under contract.",
+                 "rounds and the decoder refuses its own encoding (obligation C15.roundtrip_zero_rounds, listed in known_findings.txt). The serde wrappers are under contract (unit serde): Serialize::serialize hands "
+                 "exactly enc(p) to the serializer's serialize_bytes, and the Deserialize visitor's visit_bytes returns Ok exactly on accept_spec and decodes field by field as "
+                 "from_bytes does - for an arbitrary Serializer / error type (serde's own dispatch from deserialize_bytes to visit_bytes is the library's).",
         "assumptions": [
             "Scalar::from_canonical_bytes returns Some(s) iff the 32 bytes are canonical (uninterpreted predicate is_canonical) and then s.as_bytes() are those bytes (dalek contract)",
             "slice::chunks_exact and itertools::tuples are modelled by adapters with explicit cursor state (prelude/90_codec.rs); the pair adapter's next() is verified, its buffer semantics (odd leftover kept) is itertools' documented behaviour",
-            "serde Serialize/Deserialize impls forward to to_bytes/from_bytes and are not extracted",
+            "serde is modelled by two trait declarations (prelude/97_serde.rs): Serializer::serialize_bytes with an uninterpreted result, de::Error::custom; the Deserializer's call of Visitor::visit_bytes with the input bytes is serde's / the data format's behaviour (bincode: the length-prefixed byte string)",
             "encodings of scalars are canonical and injective, encodings of compressed points injective (dalek invariants, axioms in spec/lemmas_c15.rs)",
         ],
     },
